@@ -339,7 +339,7 @@ pub fn gen_feature_cases(rng: &mut Rng, n: usize, ops: &[&str], broken_pct: usiz
         if broken {
             toks = gen_prog::mutate(rng, &toks);
         }
-        let lo = Layout { comment_pct: if i % 3 == 0 { 12 } else { 0 }, comment_gaps: if broken { None } else { Some(gen_prog::LEADING_GAPS) }, compact: rng.chance(1, 3) };
+        let lo = Layout { comment_pct: if i % 3 == 0 { 12 } else { 0 }, comment_gaps: if broken || i % 6 == 0 { None } else { Some(gen_prog::LEADING_GAPS) }, compact: rng.chance(1, 3) };
         let (text, offs, _) = gen_prog::layout(rng, &toks, &lo);
         let h = hex_str(&text);
         let mut p2 = prog.clone();
@@ -418,6 +418,15 @@ pub fn gen_fmt(rng: &mut Rng, n: usize, which: &str, out: &mut Vec<String>) {
             for t in toks.iter_mut() {
                 if t.binding != gen_prog::Binding::None && !t.is_decl && rng.chance(1, 8) {
                     t.text = "undefined_name".to_string();
+                }
+            }
+        }
+        if which == "C09" && i % 3 == 1 {
+            // ill-typed but syntactically valid: one injected violation of a static rule
+            let class = *rng.pick(crate::ops_sem::FAULT_CLASSES);
+            if class != "MissingTrailingSemic" && class != "MissingClosing" {
+                if let Some((t2, _, _, _)) = crate::ops_sem::inject(rng, &prog, class) {
+                    toks = t2;
                 }
             }
         }
